@@ -12,7 +12,7 @@ RULE = ('random programs (3-9 statements: var/assignment operators/if-else/while
         'representable numbers incl. durations, printed with minimal parentheses per the documented precedence table and '
         'evaluated twice by ConfigCompiler::CompileText + Expression::Evaluate; operator typing matrix (every binary operator '
         'x every pair of operand kinds); precedence pairs (a op1 b op2 c for all operator pairs); scoping/closure/this '
-        'templates; depth-limit programs (recursion and nesting around 300); recorded crash reproducers; programs broken at a '
+        'templates; callbacks that resize the array they iterate (map/filter/any/all); depth-limit programs (recursion and nesting around 300); recorded crash reproducers; programs broken at a '
         'known token (syntax error position); hostile stream: mutated programs, random bytes, deep nesting, deep recursion on '
         'main thread / 512 KiB thread / 256 KiB coroutine stack. Candidates whose model result leaves the exact-number domain '
         'are dropped before the run. non-trivial = program with at least 3 AST nodes whose evaluation did not end in a '
@@ -772,6 +772,33 @@ def fam_findings():
     return cs
 
 
+def fam_callback_resize():
+    """Array#map/filter/any/all whose callback resizes the array (well defined since fix 2c1ef52: index based, length re-read)"""
+    cs = []
+    add = lambda stmts: cs.append(mk_case(stmts, 'callback-resize'))
+    A = lambda *xs: ('arr', [N(x) for x in xs])
+    lenlt = lambda n: ('bin', '<', ('call', ('dot', V('va'), 'len'), []), N(n))
+    for m in ('map', 'filter', 'any', 'all'):
+        for ret in (V('pa'), ('bin', '>', V('pa'), N(1)), ('bool', True), N(0)):
+            # grow while short
+            add([('var', 'va', A(1, 2, 3)), ('var', 'vb', ('call', ('dot', V('va'), m), [('fn', ['pa'], [('va', None)],
+                 [('if', lenlt(7), [('expr', ('call', ('dot', V('va'), 'add'), [('bin', '+', V('pa'), N(10))]))], None), ('ret', ret)])])), ('expr', ('arr', [V('va'), V('vb')]))])
+            # shrink: remove the first element / clear
+            add([('var', 'va', A(1, 2, 3, 4, 5)), ('var', 'vb', ('call', ('dot', V('va'), m), [('fn', ['pa'], [('va', None)],
+                 [('expr', ('call', ('dot', V('va'), 'remove'), [N(0)])), ('ret', ret)])])), ('expr', ('arr', [V('va'), V('vb')]))])
+            add([('var', 'va', A(1, 2, 3)), ('var', 'vb', ('call', ('dot', V('va'), m), [('fn', ['pa'], [('va', None)],
+                 [('expr', ('call', ('dot', V('va'), 'clear'), [])), ('ret', ret)])])), ('expr', ('arr', [V('va'), V('vb')]))])
+            # clear and refill with many elements (reallocation)
+            add([('var', 'va', A(1, 2, 3)), ('var', 'vc', N(0)), ('var', 'vb', ('call', ('dot', V('va'), m), [('fn', ['pa'], [('va', None)],
+                 [('if', lenlt(40), [('expr', ('call', ('dot', V('va'), 'clear'), [])), ('for', 'vd', None, ('call', V('range'), [N(50)]), [('expr', ('call', ('dot', V('va'), 'add'), [V('vd')]))])], None),
+                  ('ret', ret)])])), ('expr', ('arr', [('call', ('dot', V('va'), 'len'), []), ('call', V('len'), [V('vb')])]))])
+            # replace elements in place
+            add([('var', 'va', A(1, 2, 3)), ('var', 'vb', ('call', ('dot', V('va'), m), [('fn', ['pa'], [('va', None)],
+                 [('set', '=', ('idx', V('va'), N(2)), S('x')), ('ret', ret)])])), ('expr', ('arr', [V('va'), V('vb')]))])
+    # unbounded growth: legal endless loop; the model runs out of loop budget and the candidate is dropped by the screen
+    return cs
+
+
 def fam_syntax(rnd, n):
     """a valid program with one stray token inserted at a token boundary of a statement line"""
     cases = []
@@ -836,8 +863,6 @@ def fam_hostile(rnd, n_mut, n_rand):
     # recorded findings outside the model's language (Json.encode) or with undefined behaviour (iterator invalidation)
     add('var a = []\na.add(a)\nJson.encode(a)\n', 'known:cyclic-json', ('main', 'coro'), True)
     add('var d = {}\nd.x = d\nJson.encode(d)\n', 'known:cyclic-json', ('thread',), True)
-    # (the iterator-invalidation reproducers are NOT part of the automated stream: their outcome is undefined behaviour
-    #  and depends on the heap layout; see notes/C15.md)
     # mutated programs
     done = 0
     while done < n_mut:
@@ -871,7 +896,7 @@ def fam_hostile(rnd, n_mut, n_rand):
 
 
 # ----------------------------------------------------------------------------- screening with the extracted model
-DROP = ('abort:domain', 'abort:fuel', 'abort:crashiter')
+DROP = ('abort:domain', 'abort:fuel')
 
 
 def screen(cases):
@@ -916,6 +941,7 @@ def generate(seed, tier):
     cases += fam_scoping()
     cases += fam_depth()
     cases += fam_findings()
+    cases += fam_callback_resize()
     for _ in range(n_rand):
         try:
             cases.append(mk_case(random_program(rnd), 'random-program'))
@@ -943,10 +969,7 @@ def classify(case, detail, impl_lines):
     """known-finding keys are returned ONLY for a crash that the model (or the reproducer's tag) attributes to that class"""
     if 'crash' in detail:
         if 'model=abort:cycle' in detail: return 'cyclic-traversal'
-        if 'model=abort:crashnull' in detail: return 'array-minus-null'
-        if 'model=abort:crashfpe' in detail: return 'modulo-int-division'
         if 'tag=known:cyclic-json' in detail: return 'cyclic-traversal'
-        if 'tag=known:iter-invalidation' in detail: return 'iterator-invalidation'
         if 'hostile' in detail:
             m = re.search(r'tag=(\S+)', detail)
             tag = m.group(1) if m else 'hostile'
